@@ -1,7 +1,7 @@
 #!/usr/bin/env python3
 import json,glob,os
 rows=[]
-for d in sorted(glob.glob('/verif/seeded/*')):
+for d in sorted(x for x in glob.glob('/verif/seeded/*') if os.path.isdir(x)):
     m=json.load(open(os.path.join(d,'meta.json')))
     c=m.get('confirmation') or {}
     rows.append((os.path.basename(d), m.get('property'), (m.get('summary') or '')[:110].replace('|','/').replace('\n',' '), 'yes' if c.get('fails_with') and c.get('passes_without') and c.get('tests_ok') else 'NO', ','.join(m.get('caught_by',[])) or '-', ','.join(m.get('undecided_in',[])) or '-', 'yes' if m.get('applied_to_repo') else 'no'))
